@@ -42,7 +42,8 @@ use vstd::prelude::*;
 use std::io::{Read, Seek};
 use std::marker::PhantomData;
 use std::collections::BTreeMap;
-use std::slice::Chunks;
+use std::slice::ChunksExact;
+use std::cmp::min;
 
 verus! {
 
@@ -97,11 +98,32 @@ impl Clone for Sheet {
 //@@ include common/bytes.rs
 
 // ---- std functions without a vstd specification
-// TRUSTED: `s.chunks(n)` panics iff n == 0 (core::slice documentation); the chunk contents are not used by any clause of this unit
+// TRUSTED: `s.chunks_exact(n)` panics iff n == 0 (core::slice documentation); every chunk it hands out has exactly n elements (the XTI
+// table built from them is pinned down in unit names, not here)
 #[verifier::external_type_specification] #[verifier::external_body] #[verifier::reject_recursive_types(T)]
-pub struct ExChunks<'a, T: 'a>(Chunks<'a, T>);
-pub assume_specification<'a, T>[ <[T]>::chunks ](s: &'a [T], n: usize) -> (r: Chunks<'a, T>)
-    requires n != 0;
+pub struct ExChunksExact<'a, T: 'a>(ChunksExact<'a, T>);
+/// elements not yet handed out / chunk size
+pub uninterp spec fn cx_rem<T>(c: ChunksExact<'_, T>) -> Seq<T>;
+pub uninterp spec fn cx_size<T>(c: ChunksExact<'_, T>) -> int;
+pub assume_specification<'a, T>[ <[T]>::chunks_exact ](s: &'a [T], n: usize) -> (r: ChunksExact<'a, T>)
+    requires n != 0,
+    ensures cx_rem(r) == s@, cx_size(r) == n;
+// TRUSTED: ChunksExact::next (core::slice documentation): the next n elements while at least n remain, else None (a shorter tail is never handed out)
+pub assume_specification<'a, T>[ <ChunksExact<'a, T> as Iterator>::next ](c: &mut ChunksExact<'a, T>) -> (r: Option<&'a [T]>)
+    ensures
+        cx_size(*final(c)) == cx_size(*old(c)),
+        cx_rem(*old(c)).len() < cx_size(*old(c)) ==> r is None && cx_rem(*final(c)) == cx_rem(*old(c)),
+        cx_rem(*old(c)).len() >= cx_size(*old(c)) ==> r is Some
+            && r->Some_0@ == cx_rem(*old(c)).take(cx_size(*old(c)))
+            && cx_rem(*final(c)) == cx_rem(*old(c)).skip(cx_size(*old(c)));
+// TRUSTED: documented behaviour of std::cmp::min (generic over Ord; the only instantiation used is usize, whose order is the integer order)
+pub uninterp spec fn min_spec<T>(a: T, b: T) -> T;
+#[verifier::external_body]
+pub broadcast proof fn axiom_min_usize(a: usize, b: usize)
+    ensures #[trigger] min_spec(a, b) == (if a <= b { a } else { b }),
+{}
+pub assume_specification<T: Ord>[ std::cmp::min::<T> ](a: T, b: T) -> (r: T)
+    ensures r == min_spec(a, b);
 /// the items an `IntoIterator` value hands out, in order
 pub uninterp spec fn iter_items<T, I>(i: I) -> Seq<T>;
 // TRUSTED: `Vec::extend` appends the items of the iterator in order (alloc::vec documentation)
@@ -349,20 +371,12 @@ impl<T: CellType> Cell<T> {
         ensures c == Cell::mk(position, value),
     { unimplemented!() }
 }
-/// documented precondition of from_sparse ("cells: sorted by row"), as far as the code relies on it: first/last row are min/max
-/// (same text as in units range / lazyrange)
-pub closed spec fn rows_sorted<T: CellType>(cs: Seq<Cell<T>>) -> bool {
-    forall|i: int| 0 <= i < cs.len() ==> cs[0].pos.0 <= (#[trigger] cs[i]).pos.0 <= cs[cs.len() - 1].pos.0
-}
 /// the range `Range::from_sparse` builds from these cells
-// TRUSTED: unit range (C05.sparse_*): for row-sorted cells, empty iff no cells; else bounds == tight bounding box, at(p) == value of the
-// last cell at p, default elsewhere
+// TRUSTED: unit range (C05.sparse_*; no precondition: the cells may come in any order): empty iff no cells; else bounds == tight bounding
+// box, at(p) == value of the last cell at p, default elsewhere
 pub uninterp spec fn sparse_range<T: CellType>(cells: Seq<Cell<T>>) -> Range<T>;
 impl<T: CellType> Range<T> {
     #[verifier::external_body] pub fn from_sparse(cells: Vec<Cell<T>>) -> (r: Range<T>)
-        requires
-            //# C06.from_sparse_rows_sorted
-            rows_sorted(cells@),
         ensures r == sparse_range(cells@),
     { unimplemented!() }
 }
@@ -653,6 +667,22 @@ let stream = (match \g<1> { Ok(__v) => Ok(__v), Err(_) => \g<2> })?;
                     }
                     cur = __it0.s();
                 }
+//@@ replace /xtis\.extend\((.*?)\s*\.chunks_exact\((.*?)\)\s*\.take\((.*?)\)\s*\.map\(\|xti\| (Xti \{.*?\})\)\);/ `v.extend(s.chunks_exact(n).take(c).map(|x| E))` is rewritten to its documented meaning (core::iter::Take: at most c items, the counter is tested before the inner iterator is asked; Map: E for each item; Vec::extend: pushed in order) as an explicit loop over the same `chunks_exact` iterator, because Verus has no specification hook for the provided adapters `take` and `map` of the foreign iterator `ChunksExact`. The closure body E is re-inserted verbatim (\g<4>) and is verified (same rewrite as in unit names, where the resulting table is pinned down).
+{ let __take: usize = \g<3>; let mut __ch = \g<1>.chunks_exact(\g<2>); let mut __n: usize = 0;
+                        loop
+                            invariant __n <= __take, cx_size(__ch) == 6,
+                            decreases __take - __n,
+                        {
+                            if __n >= __take { break; }
+                            match __ch.next() {
+                                None => { break; }
+                                Some(xti) => {
+                                    xtis.push(\g<4>);
+                                    __n += 1;
+                                }
+                            }
+                        }
+                    }
 //@@ replace /self\.formats = xfs\s*\.into_iter\(\)\s*\.map\(\|fmt\| (.*?)\)\s*\.collect\(\);/ Verus limitation (probed, minimal repro in the report): vstd's specification of Iterator::map + collect is not applied to a closure inside a GENERIC impl (`impl<RS: Read + Seek>`), although the same statement verifies in a non-generic function. `v.into_iter().map(|x| E).collect::<Vec<_>>()` is rewritten to its documented meaning (core::iter::Map, FromIterator for Vec): a new Vec holding E for every element of v in order. The closure body E is re-inserted verbatim (\g<1>).
 self.formats = { let ghost __xs = xfs@; let ghost __fm = formats@; let mut __out: Vec<CellFormat> = Vec::new();
             for fmt in __itx: xfs
@@ -789,10 +819,10 @@ let fmla_sheet_names = { let mut __out: Vec<String> = Vec::new();
                     assert(!dispatched(v.typ) ==> cells@ == cells_in && formulas@ == formulas_in && merge_cells@ == merges_in && fmla_pos == fpos);
                 }
 //@@ before /cells\.reserve\(/
-                        // a cell record takes at least 6 bytes of the stream (RkRec of a MULRK run), so a reservation of more cells than the
-                        // stream has bytes is out of proportion to the input (each reserved Cell<Data> is 40 bytes)
+                        // a cell record takes at least 6 bytes of the stream (RkRec of a MULRK run): no more cells are reserved than the sheet
+                        // substream can hold, whatever the Dimensions record declares (each reserved Cell<Data> is 40 bytes)
                         //# C06.reserve_proportional_to_input
-                        assert(rows as int * cols as int <= stream@.len());
+                        assert(6 * (n as int) <= sh@.len()) by { broadcast use axiom_min_usize; }
 //@@ before /sheets\.insert\(/
             proof {
                 axiom_string_obeys_cmp();
@@ -838,11 +868,7 @@ let fmla_sheet_names = { let mut __out: Vec<String> = Vec::new();
 
 // ---- witnesses: every `requires` of this unit is satisfiable
 proof fn witness_requires() {
-    // Range::from_sparse: rows_sorted -- no cells, or one cell
-    assert(rows_sorted(Seq::<Cell<Data>>::empty()));
-    let c = Cell::<Data>::mk((3u32, 1u32), Data::Empty);
-    assert(rows_sorted(seq![c]));
-    // <[T]>::chunks: n != 0 -- the only call site passes 6
+    // <[T]>::chunks_exact: n != 0 -- the only call site passes 6
     assert(6usize != 0);
     // read_u16 / read_i16 (common/bytes.rs): a 2-byte slice
     assert(seq![1u8, 0u8].len() >= 2);
